@@ -34,7 +34,7 @@ def job_tag_documents(case):
     locs = sorted({p['loc'] for p in case['places']})
     index = {l: i + 1 for i, l in enumerate(locs)}
     n = len(locs) + 1
-    places = [{'location': {'index': index[p['loc']]}, 'duration': 0.0, 'times': [[rfc(p['start']), rfc(p['end'])]], 'tag': 'ab'[i]} for i, p in enumerate(case['places'])]
+    places = [{'location': {'index': index[p['loc']]}, 'duration': 0.0, 'times': [[rfc(p['start']), rfc(p['end'])]], **({'tag': 'abcdefgh'[i]} if p.get('tagged', True) else {})} for i, p in enumerate(case['places'])]
     problem = {'plan': {'jobs': [{'id': 'job1', 'services': [{'places': places}]}]},
                'fleet': {'vehicles': [{'typeId': 'type1', 'vehicleIds': ['v1'], 'profile': {'matrix': 'car'}, 'costs': {'fixed': 1.0, 'distance': 1.0, 'time': 1.0},
                                        'shifts': [{'start': {'earliest': rfc(0), 'location': {'index': 0}}, 'end': {'latest': far, 'location': {'index': 0}}}], 'capacity': [10]}],
@@ -657,7 +657,7 @@ def evaluate(case, native):
         if not acts:
             return None, 'the job is not in the written tour'
         got = acts[0].get('jobTag')
-        want = 'ab'[case['used']]
+        want = 'abcdefgh'[case['used']] if case['places'][case['used']].get('tagged', True) else None
         if got != want:
             return True, (f'the activity uses place {case["used"]} (tag {want!r}: location and window {case["places"][case["used"]]}) but the written solution reports tag {got!r} '
                           f'(places: {case["places"]})')
